@@ -295,10 +295,26 @@ func c14Scripts(e *env) {
 		if n%5 == 0 {
 			name = "FindProxyForURLEx"
 		}
-		script := fmt.Sprintf("function %s(url, host) {\n  if (%s) {\n%s\n  } else {\n%s\n  }\n}\n",
-			name, c.Tree.C.js(), c.Tree.T.js("    "), c.Tree.E.js("    "))
+		// every third script is written the way old PAC files are: it assigns to a variable it never declared
+		// and calls a helper with a repeated parameter name - legal in a classic script (PAC files are that)
+		legacy := ""
+		if n%3 == 0 {
+			legacy = "  lastHost = host;\n  function same(a, a) { return a; }\n  host = same(0, lastHost);\n"
+		}
+		script := fmt.Sprintf("function %s(url, host) {\n%s  if (%s) {\n%s\n  } else {\n%s\n  }\n}\n",
+			name, legacy, c.Tree.C.js(), c.Tree.T.js("    "), c.Tree.E.js("    "))
 		res := map[string]any{"ok": true, "script": script}
-		pr, err := pac.NewProxyResolver(pac.VerifConfig(script, c14Lookup, nil, nil), nil)
+		// a resolver of its own and the pool the proxy uses: the same script, the same answers
+		var pr interface {
+			FindProxyForURL(u *url.URL, hostname string) (string, error)
+		}
+		var err error
+		if n%2 == 0 {
+			pr, err = pac.NewProxyResolver(pac.VerifConfig(script, c14Lookup, nil, nil), nil)
+		} else {
+			pr, err = pac.NewProxyResolverPool(pac.VerifConfig(script, c14Lookup, nil, nil), nil)
+			res["pool"] = true
+		}
 		if err != nil {
 			res["ok"], res["why"] = false, "script rejected: "+err.Error()
 			e.emit(res)
